@@ -139,7 +139,7 @@ bool linepart::array::apply(const transform &tr, int dim, span<const double> src
 			}
 			pt = tr.part(dim, val, old.usr);
 			// minimize leading line
-			if (old._cut > pt._cut) {
+			if (pt.usr && old._cut > pt._cut) {
 				pt._cut = old._cut;
 			}
 			// partial segment
@@ -154,6 +154,10 @@ bool linepart::array::apply(const transform &tr, int dim, span<const double> src
 				old.raw -= pt.raw;
 				old.usr -= pt.raw;
 				old._cut = 0;
+				// nothing left to shorten
+				if (!old.usr) {
+					old._trim = 0;
+				}
 			}
 			else {
 				// smaller old segment
@@ -161,7 +165,7 @@ bool linepart::array::apply(const transform &tr, int dim, span<const double> src
 					pt.raw = old.raw;
 				}
 				// minimize trailing line
-				if (old._trim > pt._trim) {
+				if (pt.usr && old._trim > pt._trim) {
 					pt._trim = old._trim;
 				}
 				// continue in next part
